@@ -362,20 +362,22 @@ syntactic facts (`translator/edwards448facts.go`, go/ast): for every function, t
 receiver excluded) that are used as receiver of a mutating method, assigned through, or handed to an
 output position.  The harness stream `argument unchanged` exercises the same on real objects. -/
 
-/-- in internal/edwards448/*.go the only parameters ever modified are the documented output
-    parameters: `buf` of `bytes`/`copyFieldElement`, `s` of `scMulAdd`, `out` of `scReduce`, `dest` of the
-    three `SelectInto`; in particular no `Init`, no point operation and no scalar multiplication
-    modifies a point or scalar argument (a `q2 := q.Add(q, q)` slip breaks this) -/
+/-- Stated by ROLE, no function is named (renaming does not touch this): in
+    internal/edwards448/*.go
+    (1) every EXPORTED function or method (exported name on an exported receiver type: all of
+        `Point` and `Scalar`) modifies none of its non-receiver parameters — point operations, scalar
+        operations and the three scalar multiplications leave their arguments untouched;
+    (2) an unexported function may modify a parameter only as an OUTPUT parameter: the first statement
+        that mentions it uses it purely as a destination (its incoming value is never read first);
+        handing a parameter on to an output position counts as modifying it (fixed point), so a table
+        `Init` that overwrote its point argument would surface in every exported caller as well;
+    (3) non-vacuity: the table contains exported functions and output parameters.
+    A `q2 := q.Add(q, q)` receiver slip breaks (1) and (2). -/
 theorem edwards448_args_readonly :
-    Gen.Edwards448Facts.paramMutations.filter (fun f => !f.2.isEmpty) =
-      [("Point.bytes", ["buf"]), ("copyFieldElement", ["buf"]), ("scMulAdd", ["s"]), ("scReduce", ["out"]),
-       ("lookupTable.SelectInto", ["dest"]), ("nafLookupTable5.SelectInto", ["dest"]),
-       ("nafLookupTable8.SelectInto", ["dest"])] ∧
-    Gen.Edwards448Facts.paramMutations.lookup "nafLookupTable5.Init" = some [] ∧
-    Gen.Edwards448Facts.paramMutations.lookup "nafLookupTable8.Init" = some [] ∧
-    Gen.Edwards448Facts.paramMutations.lookup "lookupTable.Init" = some [] ∧
-    Gen.Edwards448Facts.paramMutations.lookup "Point.VarTimeDoubleScalarBaseMult" = some [] ∧
-    Gen.Edwards448Facts.paramMutations.lookup "Point.ScalarMult" = some [] := by
+    (Gen.Edwards448Facts.paramMutations.all fun f =>
+        f.2.2.isEmpty || (!f.2.1 && f.2.2.all fun pm => pm.2)) = true ∧
+    (Gen.Edwards448Facts.paramMutations.any fun f => f.2.1) = true ∧
+    (Gen.Edwards448Facts.paramMutations.any fun f => !f.2.2.isEmpty) = true := by
   decide
 
 end C16Pt
